@@ -18,7 +18,7 @@ for d in (WORK, EVID, REPLAYS):
 
 def ensure_env():
     """Re-exec once with the fixed environment (hash seed, repo on the path, hooks guard)."""
-    want = {"PYTHONHASHSEED": "0", "PYTHONPATH": REPO, "SYNRBL_VERIF": "1",
+    want = {"PYTHONHASHSEED": "0", "PYTHONPATH": REPO + ":" + os.path.join(VERIF, "harness"), "SYNRBL_VERIF": "1",
             "PIP_NO_INDEX": "1", "PYTHONDONTWRITEBYTECODE": "1"}
     if any(os.environ.get(k) != v for k, v in want.items()):
         os.environ.update(want)
